@@ -151,7 +151,16 @@ def environments_rejected(which):
 
 def position_rejected(kind, form, i, x, y, z):
     """out-of-range positions raise in every accessor, and the state / chemostat arrays are unchanged afterwards"""
-    sysm = mk_system(0, 0 if kind == "grid" else 1, 0)
+    if kind == "grid":
+        global _G321
+        try:
+            sysm = _G321.copy()
+        except NameError:
+            net = mk_network(0, 0)
+            _G321 = RDSystem(net, RDGridSpace(w=3, h=2, d=1, cell_env=[0, 1, 0, 1, 0, 1], cell_vol=8.0), state=[1.0 + 0.5 * k for k in range(18)], chemostats=[k % 2 for k in range(18)])
+            sysm = _G321.copy()
+    else:
+        sysm = mk_system(0, 1, 0)
     n = sysm.space.size()
     if kind == "grid":
         w, h, d = sysm.space.w, sysm.space.h, sysm.space.d
